@@ -1,0 +1,71 @@
+//go:build verif
+
+package collection
+
+import (
+	"encoding/json"
+	"testing"
+	"time"
+
+	"github.com/gotid/god/internal/verifdrv"
+	"github.com/gotid/god/lib/timex"
+)
+
+// ops: [0,v] Add(v) | [1] Reduce | [2,dt] advance the virtual clock by dt ns
+type verifRWCase struct {
+	Size     int       `json:"size"`
+	Interval int64     `json:"interval"`
+	Ignore   bool      `json:"ignore"`
+	Ops      [][]int64 `json:"ops"`
+}
+
+// TestVerifDriverRW drives RollingWindow on the virtual clock and reports, for every Reduce,
+// the buckets handed to the reducer (in order), plus the final ring.
+func TestVerifDriverRW(t *testing.T) {
+	verifdrv.Run(t, func(raw json.RawMessage) any {
+		var c verifRWCase
+		if err := json.Unmarshal(raw, &c); err != nil {
+			return map[string]any{"error": err.Error()}
+		}
+		timex.VerifSetNow(time.Hour)
+		defer timex.VerifClockOff()
+		reduces := [][][2]int64{}
+		var rw *RollingWindow
+		if p, _ := verifdrv.Catch(func() {
+			if c.Ignore {
+				rw = NewRollingWindow(c.Size, time.Duration(c.Interval), IgnoreCurrentBucket())
+			} else {
+				rw = NewRollingWindow(c.Size, time.Duration(c.Interval))
+			}
+		}); p {
+			return map[string]any{"panic_at": 0, "reduces": reduces}
+		}
+		panicAt := -1
+		for i, op := range c.Ops {
+			p, _ := verifdrv.Catch(func() {
+				switch op[0] {
+				case 0:
+					rw.Add(float64(op[1]))
+				case 1:
+					row := [][2]int64{}
+					rw.Reduce(func(b *Bucket) {
+						row = append(row, [2]int64{int64(b.Sum), b.Count})
+					})
+					reduces = append(reduces, row)
+				case 2:
+					timex.VerifAdvance(time.Duration(op[1]))
+				}
+			})
+			if p {
+				panicAt = i + 1
+				break
+			}
+		}
+		ring := make([][2]int64, 0, len(rw.win.buckets))
+		for _, b := range rw.win.buckets {
+			ring = append(ring, [2]int64{int64(b.Sum), b.Count})
+		}
+		return map[string]any{"panic_at": panicAt, "reduces": reduces, "offset": rw.offset,
+			"last": int64(rw.lastTime - time.Hour), "ring": ring}
+	})
+}
